@@ -4,7 +4,7 @@
    with its elements - what the background cleaner produces.  "Whether or not
    the cleaner has removed it yet" is therefore: the same answer on [d] and on
    [purge now d]. *)
-From Redka Require Import Base Db Glob ImplKey Ops Spec Abs Inv Refine ProofExpiry.
+From Redka Require Import Base Db Glob ImplKey Ops Spec Abs Inv Refine ProofExpiry Spec Abs Refine ProofRefineAll.
 
 (* the boundary is sharp, and reads and the cleaner agree on it *)
 Theorem C10_expiry_boundary : forall r e, k_etime r = Some e ->
@@ -59,6 +59,19 @@ Proof. exact C10_cleaner_limited. Qed.
 Theorem C10_purge_keeps_consistency : forall now d, Inv d -> Inv (purge now d).
 Proof. exact C10_purge_inv. Qed.
 
+(* writes too: every covered operation of every type (ProofRefineAll.covered: all but the cursor scans,
+   the random key, Key.Len and the bulk expiry deletion), run where expired keys are still stored and
+   run where they have been physically removed, gives the specification's answer and ends with the
+   specification's abstraction - nothing a client can observe depends on whether the cleaner has run.
+   step_ok: the side conditions of the step theorems (Properties/Shared.v). *)
+Theorem C10_writes_do_not_see_expired_keys_either : forall now o d s,
+  covered o = true -> step_ok now o d -> step_ok now o (purge now d) -> Inv d -> R now d s ->
+  let '(d1, x1) := exec_db now o d in
+  let '(d2, x2) := exec_db now o (purge now d) in
+  let '(s', y) := spec_step now o s in
+  out_equiv o x1 y /\ out_equiv o x2 y /\ R now d1 s' /\ R now d2 s'.
+Proof. exact expired_keys_make_no_difference. Qed.
+
 Print Assumptions C10_expiry_boundary.
 Print Assumptions C10_reads_do_not_see_expired_keys.
 Print Assumptions C10_abstraction_ignores_expired.
@@ -66,3 +79,4 @@ Print Assumptions C10_write_to_expired_starts_fresh.
 Print Assumptions C10_cleaner_removes_exactly_the_expired.
 Print Assumptions C10_limited_cleaner.
 Print Assumptions C10_purge_keeps_consistency.
+Print Assumptions C10_writes_do_not_see_expired_keys_either.
